@@ -111,6 +111,13 @@ func newWorld(c catalog, salt int64) *world {
 		r.Read(os_[i][:])
 	}
 	sort.Slice(os_, func(i, j int) bool { return string(os_[i][:]) < string(os_[j][:]) })
+	// boundary ids: the largest id is 0xFF..FF (cursor increment wraps), the smallest 0x00..01; the order is kept
+	if len(os_) > 1 {
+		for k := range os_[0] {
+			os_[0][k], os_[len(os_)-1][k] = 0, 0xFF
+		}
+		os_[0][len(os_[0])-1] = 1
+	}
 	w.cids = append([]cid.ID{{}}, cs...)
 	w.oids = append([]oid.ID{{}}, os_...)
 	w.objs = make([]*object.Object, len(c.Objs)+1)
